@@ -1,7 +1,7 @@
 """Generators for deb822-like texts (shared by C05, C07, C10, C11, C12)."""
 import itertools
 
-LINE_KINDS = ['A: v', 'A:', 'Licence: x', ' c', '\tc', ' .', '', '  ', '\x0c', 'junk', 'a\x0cb: v', ' k: v', '# c', ' \xa0c']
+LINE_KINDS = ['A: v', 'A:', 'Licence: x', ' c', '\tc', ' .', '', '  ', '\x0c', 'junk', 'a\x0cb: v', ' k: v', '# c', ' \xa0c', 'A:\xa0v\u3000']
 TERMS = ['\n', '\r\n', '\r']
 
 
